@@ -15,7 +15,7 @@ func init() { registry["C06"] = propC06 }
 
 func propC06() *Property {
 	return &Property{
-		ID: "C06",
+		ID:          "C06",
 		Explanation: "Crash clause only, by obligation classes: Go panics have a closed set of causes; over every function of the packages below the UI (pub, object, client, jtp, mime, hypertext, gemtext, plaintext, markdown, ansi, style) the checker enumerates every may-panic site of the classes K1–K7 and discharges each with a named static argument. K1: every type assertion is comma-ok (or provably holds). K2: every use of the value of a value+Err pair that would crash on the zero value is dominated by XErr == nil, and every producer stored into a pair returns a non-nil value with a nil error. K3: every slice index, slice bound, strings.Repeat count and make size that can depend on a width parameter or a link number is proven within range from branch facts (linear inequalities), or is a named relational exception. K4: every index into a regexp match is within the pattern's capture count and either guarded by a length test, or the pattern is total, or the match comes from FindAll. K5: every explicit panic is discharged (superscript of non-negative numbers only, Activity kinds accepted ⊆ kinds rendered, non-nil harvest receiver, NewFailure(non-nil) via C05.R4). K6: no typed-nil in Container/Tangible (C11.R1). K7: every recursion (call-graph SCC) is in the table with a checked measure. NOT decided: the hang / resource clause (cost of nested indenting blocks: the property text records that the pinned tree violates it with 82 nested <blockquote>; no sound static cost analysis is in reach), nil dereferences outside K2/K6, and bounds checks that rest on relational invariants, which are listed in the evidence as unclaimed sites.",
 		Assumptions: []string{"library functions do not panic on the argument ranges established here (strings.Repeat count >= 0, slice bounds)", "regexp/syntax models the regexp engine's capture structure"},
 		Rules: []Rule{
@@ -195,7 +195,7 @@ func paramDereferenced(p *ssa.Parameter) bool {
 				at = x.Block()
 			}
 		case *ssa.Store:
-			if x.Val == ssa.Value(p) {
+			if unwrapLoad(x.Val) == ssa.Value(p) {
 				// spilled into a local: look at loads of that local
 				if a, ok := x.Addr.(*ssa.Alloc); ok {
 					for _, rr := range refs(a) {
@@ -410,7 +410,7 @@ func rangeIndexed(ia *ssa.IndexAddr) bool {
 	// the loop condition compares the same index with len(seq)
 	for _, r := range refs(bo) {
 		cmp, ok := r.(*ssa.BinOp)
-		if !ok || cmp.Op != token.LSS || cmp.X != ssa.Value(bo) {
+		if !ok || cmp.Op != token.LSS || unwrapLoad(cmp.X) != ssa.Value(bo) {
 			continue
 		}
 		if lc, ok := cmp.Y.(*ssa.Call); ok {
@@ -851,7 +851,7 @@ func parentsMeasure(P *Program) (bool, string) {
 		}
 		arg := call.Call.Args[1]
 		bo, isB := arg.(*ssa.BinOp)
-		if !isB || bo.Op != token.SUB || bo.X != ssa.Value(q) {
+		if !isB || bo.Op != token.SUB || unwrapLoad(bo.X) != ssa.Value(q) {
 			why = "the recursive call does not pass quantity minus a constant"
 			return
 		}
@@ -863,7 +863,7 @@ func parentsMeasure(P *Program) (bool, string) {
 		ne0, ne1 := false, false
 		for _, f := range factsOf(fn).At(b) {
 			cmp, okc := f.Cmp()
-			if !okc || cmp.X != ssa.Value(q) {
+			if !okc || unwrapLoad(cmp.X) != ssa.Value(q) {
 				continue
 			}
 			k, isC := constInt(cmp.Y)
@@ -928,7 +928,7 @@ func descentMeasure(P *Program, comp []*ssa.Function) (bool, string) {
 			switch {
 			case arg == nil:
 				why = "recursive call without a node argument at " + P.InstrPos(ins)
-			case np != nil && arg == ssa.Value(np):
+			case np != nil && unwrapLoad(arg) == ssa.Value(np):
 				same[f] = append(same[f], callee)
 			case descendsFrom(arg, np, map[ssa.Value]bool{}):
 				// strict descendant
@@ -991,7 +991,7 @@ func descendsFrom(v ssa.Value, np *ssa.Parameter, seen map[ssa.Value]bool) bool 
 		if name != "FirstChild" && name != "NextSibling" && name != "LastChild" && name != "PrevSibling" {
 			return false
 		}
-		if np != nil && fa.X == ssa.Value(np) {
+		if np != nil && unwrapLoad(fa.X) == ssa.Value(np) {
 			return name == "FirstChild" || name == "LastChild"
 		}
 		return descendsFrom(fa.X, np, seen)
